@@ -371,7 +371,7 @@ theorem may_of_clash {cfg : Cfg} {a : A} {s : State} (hs : Sim cfg a s) (u : Nat
   · -- the manager's own entry
     have hf := find_of_mem (s := s) hs.minv.distinct ho
     rw [h0] at hf
-    obtain ⟨hm1, hm2⟩ := hs.minv.mgr o hf
+    obtain ⟨hm1, hm2, _⟩ := hs.minv.mgr o hf
     have hne : (o.modId == me.modId) = false := by rw [hm1]; simpa using fun e => hid e.symm
     simp only [hne, Bool.false_and, Bool.false_or, Bool.and_eq_true, Bool.not_eq_true', beq_iff_eq] at hcl
     have : nm = mmName := by rw [← h3, ← hcl.2, hm2]
